@@ -10,8 +10,10 @@ import (
 	"fmt"
 	"math/rand"
 	"os"
+	"path/filepath"
 	"regexp"
 	"runtime/debug"
+	"sort"
 	"strings"
 	"time"
 
@@ -336,8 +338,133 @@ func behaviourScript(b *Behaviour, src string) (*script, error) {
 	return sc, nil
 }
 
+// c02Actions: every action definition of flows/actions/testdata in a holder flow [action] -> msg wait -> send_msg, as it
+// is and with each of its templates replaced by values that evaluate to nothing, to white space or to an error; the
+// session is written out and read back at the wait. What the engine wrote must be readable and resume like the live one.
+func c02Actions(shard, nshards int, only string, emit func(*C02Line), errs *[]string) int {
+	dir := "/repo/flows/actions/testdata"
+	assetsJSON, err := os.ReadFile(filepath.Join(dir, "_assets.json"))
+	if err != nil {
+		*errs = append(*errs, err.Error())
+		return 0
+	}
+	files, _ := filepath.Glob(filepath.Join(dir, "*.json"))
+	sort.Strings(files)
+	edges := []string{"", " ", "@fields.nope_zz", `@("   ")`, "\t \n", "@(1 / 0)", "@contact.nope @fields.nope",
+		// things that look like references to other objects
+		"11111111-1111-1111-1111-111111111111", "5D76D86B-3BB9-4D5A-B822-C9D86F5D8E4F", "tel:+12065550009?channel=57f1078f-88aa-46f4-a59a-948a5739c03d", "@contact.uuid", "@(upper(contact.uuid))"}
+	n, ji := 0, 0
+	for _, fn := range files {
+		if strings.HasPrefix(filepath.Base(fn), "_") {
+			continue
+		}
+		data, _ := os.ReadFile(fn)
+		var tests []typeTest
+		if json.Unmarshal(data, &tests) != nil {
+			continue
+		}
+		for ti, tc := range tests {
+			ji++
+			if ji%nshards != shard || tc.ReadError != "" {
+				continue
+			}
+			base := fmt.Sprintf("%s#%d", strings.TrimPrefix(fn, "/repo/"), ti)
+			flowIndex, fu := 0, assets.FlowUUID("bead76f5-dac4-4c9d-996c-c62b326e8c0a")
+			if tc.InFlowType == "voice" {
+				flowIndex, fu = 1, assets.FlowUUID("7a84463d-d209-4d3e-a0ff-79f977cd7bd0")
+			}
+			// the templates of the action, from a flow that holds just it
+			probe := test.JSONReplace(assetsJSON, []string{"flows", fmt.Sprintf("[%d]", flowIndex), "nodes", "[0]", "actions"}, []byte("["+string(tc.Action)+"]"))
+			variants := []string{string(tc.Action)}
+			if psa, err := test.CreateSessionAssets(probe, ""); err == nil {
+				if pf, err := psa.Flows().Get(fu); err == nil {
+					seen := map[string]bool{}
+					for _, t := range pf.ExtractTemplates() {
+						q := string(mustJSON(t))
+						if seen[q] || !strings.Contains(string(tc.Action), q) {
+							continue
+						}
+						seen[q] = true
+						for _, e := range edges {
+							variants = append(variants, strings.Replace(string(tc.Action), q, string(mustJSON(e)), 1))
+						}
+					}
+				}
+			}
+			for vi, action := range variants {
+				src := fmt.Sprintf("%s/v%d", base, vi)
+				if only != "" && src != only {
+					continue
+				}
+				var a map[string]any
+				json.Unmarshal(assetsJSON, &a)
+				fl := a["flows"].([]any)[flowIndex].(map[string]any)
+				nodes := fl["nodes"].([]any)
+				n0 := nodes[0].(map[string]any)
+				var act any
+				if json.Unmarshal([]byte(action), &act) != nil {
+					continue
+				}
+				n0["actions"] = []any{act}
+				wu, eu, cu, su := "9a7e1c5e-0000-4000-8000-000000000001", "9a7e1c5e-0000-4000-8000-000000000002", "9a7e1c5e-0000-4000-8000-000000000003", "9a7e1c5e-0000-4000-8000-000000000004"
+				if exits, ok := n0["exits"].([]any); ok && len(exits) > 0 {
+					exits[0].(map[string]any)["destination_uuid"] = wu
+				}
+				fl["nodes"] = append(nodes, M{"uuid": wu, "actions": []M{},
+					"router": M{"type": "switch", "operand": "@input.text", "wait": M{"type": "msg"}, "default_category_uuid": cu, "cases": []M{},
+						"categories": []M{{"uuid": cu, "name": "All", "exit_uuid": eu}}},
+					"exits": []M{{"uuid": eu, "destination_uuid": su}}},
+					M{"uuid": su, "actions": []M{{"uuid": "9a7e1c5e-0000-4000-8000-000000000005", "type": "send_msg", "text": "after @contact.name @(json(results))"}}, "exits": []M{{"uuid": "9a7e1c5e-0000-4000-8000-000000000006"}}})
+				if tc.Localization != nil {
+					var loc any
+					json.Unmarshal(tc.Localization, &loc)
+					fl["localization"] = loc
+				}
+				adata := mustJSON(a)
+				load := func() (flows.SessionAssets, error) {
+					sa, err := test.CreateSessionAssets(adata, "")
+					if err != nil {
+						return nil, err
+					}
+					sa.Flows().Get(fu)
+					return sa, nil
+				}
+				sa, err := load()
+				if err != nil {
+					continue
+				}
+				flow, err := sa.Flows().Get(fu)
+				if err != nil {
+					continue // the edge value made the definition invalid: nothing to run
+				}
+				cj := []byte(c20Contact)
+				if tc.Contact != nil {
+					cj = tc.Contact
+				}
+				var cm map[string]any
+				json.Unmarshal(cj, &cm)
+				t := M{"type": "manual", "flow": M{"uuid": string(fu), "name": flow.Name()}, "contact": cm, "triggered_on": "2018-10-18T14:20:00Z",
+					"environment": M{"allowed_languages": []string{"eng", "spa"}, "default_country": "RW", "date_format": "YYYY-MM-DD", "time_format": "tt:mm", "timezone": "UTC"}}
+				if flow.Type() == flows.FlowTypeVoice {
+					t["call"] = M{"channel": M{"uuid": "57f1078f-88aa-46f4-a59a-948a5739c03d", "name": "Android"}, "urn": "tel:+12065551212"}
+				}
+				if !(tc.NoInput || tc.AsBatch) {
+					t["type"] = "msg"
+					t["msg"] = M{"uuid": "aa90ce99-3b4d-44ba-b0ca-79e63d9ed842", "urn": "tel:+12065551212", "text": "Hi everybody"}
+				}
+				sc := &script{name: src, eng: test.NewEngine(), sa: sa, loadSA: load, trigger: mustJSON(t), resumes: [][]byte{resumeJSON("msg", "yes", 1)}, restart: []bool{true},
+					mocks: tc.HTTPMocks, transient: transientRef.MatchString(action)}
+				n++
+				compareTwin(sc, false, emit)
+			}
+		}
+	}
+	return n
+}
+
 func c02Twin(args []string) error {
 	fs := flag.NewFlagSet("c02-twin", flag.ExitOnError)
+	actions := fs.Bool("actions", false, "every action definition of the repository's testdata, with edge-valued templates")
 	in := fs.String("in", "", "behaviours ndjson, or the fixture directory with -fixtures")
 	out := fs.String("out", "", "")
 	shard := fs.Int("shard", 0, "")
@@ -359,7 +486,9 @@ func c02Twin(args []string) error {
 		src := l.Src
 		lw.write(src, l, func(s string) { l.Src = s })
 	}
-	if !*fixtures {
+	if *actions {
+		n += c02Actions(*shard, *nshards, *only, emit, &errs)
+	} else if !*fixtures {
 		err = forEachLine(*in, *shard, *nshards, func(i int, data []byte) error {
 			b := &Behaviour{}
 			if err := json.Unmarshal(data, b); err != nil {
